@@ -119,7 +119,41 @@ def fam_chain(tier, rng):
     return out
 
 
-FAMILIES = [fam_const, fam_suffix, fam_chain]
+def fam_shadow(tier, rng):
+    """a subprogram redefines a module-level constant and then defines another constant from it: inside the
+    subprogram the name means the local constant everywhere, also inside constant expressions"""
+    out = []
+    vals = [(10, 3), (3, 10), (-2, 7), (100, 30000)]
+    for g, l in vals:
+        for op in ("*", "+", "-"):
+            for kind in ("sub", "fun"):
+                for order in ("shadow-first", "use-global-first"):
+                    b = B()
+                    body = []
+                    if order == "use-global-first":
+                        body.append(b.const("G2", "", bin_(op, cref("S"), num(1))))       # still the module-level S
+                        body.append(b.print(cref("G2")))
+                        out_of = []
+                    body += [b.const("S", "", num(l)) if order == "shadow-first" else b.const("T", "", num(l))]
+                    name = "S" if order == "shadow-first" else "T"
+                    body += [b.const("AREA", "", bin_(op, cref(name), cref(name))), b.print(cref("AREA"), cref(name), cref("S")),
+                             b.print(par(bin_(op, cref(name), cref(name))))]
+                    main = [b.const("S", "", num(g))]
+                    if kind == "sub":
+                        main += [b.call("P", [])]
+                        subs = [sub("P", [], body)]
+                    else:
+                        fc = fcall("F", "I", [], 0)
+                        st = b.print(fc)
+                        fc["sid"] = st["id"]
+                        main += [st]
+                        subs = [fun("F", "I", [], body + [b.let(var("F", "I"), lit("I", 1))])]
+                    main += [b.print(cref("S"))]
+                    out.append({"fam": "const-shadow:%s/%s/%s" % (kind, op, order), "prog": prog(main, subs)})
+    return out
+
+
+FAMILIES = [fam_const, fam_suffix, fam_chain, fam_shadow]
 
 
 def cases(tier, seed):
